@@ -202,17 +202,19 @@ _CB_STUBS = ["alloc::fmt::format -> fresh one-character string (message text nev
              "chrono::DateTime::parse_from_rfc3339 and the additional-control evaluators of validator/control.rs return Err "
              "(statically reachable from every visitor callback; never reached with these documents)"]
 _QUICK_CB = {
-    "C01": ["c00_ident_json_uint_int", "c00_ident_json_nint_int", "c00_ident_json_int_big", "c00_ident_json_true_bool",
-            "c00_value_json_eq", "c00_value_json_lt", "c09_range_json_int", "c00_value_json_neg_vs_uint", "c09_range_json_mixed"],
+    "C01": ["c00_ident_json_uint_int", "c00_ident_json_nint_int", "c00_ident_json_uint_big", "c00_ident_json_int_big",
+            "c00_value_json_eq", "c00_value_json_lt", "c00_value_json_u64_gt", "c00_value_json_size", "c09_range_json_int",
+            "c00_value_json_neg_vs_uint", "c09_range_json_mixed"],
     "C02": ["c00_ident_cbor_uint_int", "c00_ident_cbor_nint_int", "c00_ident_cbor_number_float", "c00_ident_cbor_true_bool",
             "c00_value_cbor_eq", "c00_value_cbor_lt", "c09_range_cbor_int"],
     "C04": ["c00_ident_json_uint_int", "c00_ident_cbor_uint_int", "c00_ident_json_nint_int", "c00_ident_cbor_nint_int",
-            "c00_value_json_lt", "c00_value_cbor_lt", "c09_range_json_int", "c09_range_cbor_int",
+            "c00_value_json_lt", "c00_value_cbor_lt", "c00_value_json_u64_gt", "c09_range_json_int", "c09_range_cbor_int",
             "c00_value_json_neg_vs_uint", "c09_range_json_mixed"],
     "C09": ["c09_occ_repeating_cbor", "c09_occ_repeating_json", "c09_range_cbor_int", "c09_range_json_int",
             "c00_value_cbor_ne", "c00_value_json_ne", "c00_ident_cbor_nint_int", "c00_ident_json_uint_int"],
 }
-_CB_FINDINGS = {"c00_value_json_neg_vs_uint": "KF-C01-json-negative-vs-uint-literal", "c09_range_json_mixed": "KF-C01-json-mixed-range"}
+_CB_FINDINGS = {"c00_value_json_neg_vs_uint": "KF-C01-json-negative-vs-uint-literal", "c09_range_json_mixed": "KF-C01-json-mixed-range",
+                "c00_value_json_size_ge16": "KF-C01-size-16-rejects-everything"}
 
 
 def _le(v, signed=True):
@@ -284,7 +286,12 @@ def _cb_entries():
             props = ["C09", "C01" if side == "json" else "C02", "C04"]
         elif "_value_" in n:
             unit = [f"<{V} as Visitor>::visit_value", "verif_hooks_state::set_ctrl"]
-            bound = "integer literal of either kind (magnitude symbolic), integer document symbolic (" + ("i64" if side == "json" else "−2^64…2^64−1") + "), control state " + n.rsplit("_", 1)[1]
+            if "_size" in n:
+                bound = "`uint .size c`, c symbolic (≤ 15; 16..=20 in the _ge16 harness), non-negative integer document symbolic"
+            elif "_u64_" in n:
+                bound = "non-negative literal over the whole usize range, document over the whole u64 range, control state " + n.rsplit("_", 1)[1]
+            else:
+                bound = "integer literal of either kind (magnitude symbolic), integer document symbolic (" + ("i64" if side == "json" else "−2^64…2^64−1") + "), control state " + n.rsplit("_", 1)[1]
             props = ["C09", "C01" if side == "json" else "C02", "C04"]
         elif "_range_" in n:
             unit = [f"<{V} as Visitor>::visit_range"]
